@@ -42,7 +42,7 @@ Definition ok (c : case_t) : bool :=
 }
 
 /// number of Coq case kinds (see coq/C18/ModelCases.v)
-const NK: usize = 23;
+const NK: usize = 25;
 
 struct Ctx {
     sum: Summary,
@@ -1463,6 +1463,8 @@ fn run_one(cx: &mut Ctx, c: &Value) {
         }
         "collector_checker" => collector_checker_case(cx, u(&c["maxb"], 2).max(1) as usize, ops.len(), u(&c["pause_every"], 3) as usize, u(&c["timeout_ms"], 2)),
         "yieldtrace" => ym::yield_trace_case(cx, match u(&c["which"], 1) { w @ (1 | 2 | 3 | 4 | 7 | 8 | 9 | 10 | 11) => w, _ => 1 }, u(&c["limit"], 1) as usize, &ops, true),
+        "lifehist" => ym::life_hist_case(cx, u(&c["nw"], 1).clamp(1, 8) as usize, u(&c["cap"], 2) as usize, &ops, true),
+        "fyhist" => ym::fy_hist_case(cx, u(&c["obj"], 0).min(1), u(&c["param"], 1) as usize, &ops, true),
         "storehist" => ym::store_case(cx, u(&c["preset"], 0).min(2), &ops, true),
         "buffered" => ym::buffered_case(cx, if u(&c["which"], 0) == 0 { 0 } else { 5 }, u(&c["limit"], 1) as usize, &ops, &ints(&c["gates"]), true),
         "helper" => helper_case(cx, u(&c["which"], 0).min(6), u(&c["rt"], 0) as usize, u(&c["limit"], 1) as usize, &ops),
@@ -1506,9 +1508,11 @@ pub fn run(args: &Args) {
             b[13] = 100;
             b[15] = if args.thorough { 200 } else { 24 };
             b[18] = if args.thorough { 200 } else { 24 }; // concurrency::parallel_reduce
-            b[19] = if args.thorough { 900 } else { 90 }; // yielding loops driven by hand
-            b[20] = if args.thorough { 600 } else { 90 }; // buffered(max_concurrent) over gated operations
-            b[21] = if args.thorough { 300 } else { 70 }; // AsyncMemoryBlobStore histories
+            b[19] = if args.thorough { 900 } else { 70 }; // yielding loops driven by hand
+            b[20] = if args.thorough { 600 } else { 60 }; // buffered(max_concurrent) over gated operations
+            b[21] = if args.thorough { 300 } else { 50 }; // AsyncMemoryBlobStore histories
+            b[22] = if args.thorough { 400 } else { 60 }; // executor histories with shutdown (hook)
+            b[23] = if args.thorough { 200 } else { 30 }; // FiberYield / YieldPoint histories
             b
         },
         used: [0; NK],
